@@ -77,10 +77,14 @@ def run_kernel(case):
     p = (int(case["pair"][0]), int(case["pair"][1]))
     c = int(case["code"])
     r1 = guarded(lambda: [int(v) for v in contract_pair(a.copy(), p, c)])
+    box = {}
     def cacp():
         d = count_pairs([a.copy(), np.asarray([p[0], p[1], p[0], p[1]], dtype=np.int64)])
-        return [int(v) for v in contract_and_count_pairs(a.copy(), p, d, c)[0]]
-    return {"contract_pair": r1, "contract_and_count_pairs": guarded(cacp)}
+        out, d2 = contract_and_count_pairs(a.copy(), p, d, c)
+        box["d"] = [[int(k[0]), int(k[1]), int(v)] for k, v in d2.items()]
+        return [int(v) for v in out]
+    r2 = guarded(cacp)
+    return {"contract_pair": r1, "contract_and_count_pairs": r2, "cacp_dict": {"ok": box["d"]} if "d" in box else {"err": "raised"}}
 
 
 cases = json.load(open(sys.argv[1]))
